@@ -120,6 +120,28 @@ class CallGraph:
     def callers_of(self, name):
         return self.sites.get(name, [])
 
+    def reachers(self, targets):
+        """All body names that transitively reach a call to a callee in `targets`."""
+        direct = set()
+        for n, b in self.f.bodies.items():
+            for bb, t in b.calls():
+                if callee_name(t)[0] in targets:
+                    direct.add(n)
+                    break
+        rev = {}
+        for a, bs in self.edges.items():
+            for b_ in bs:
+                rev.setdefault(b_, set()).add(a)
+        seen = set()
+        st = list(direct)
+        while st:
+            x = st.pop()
+            if x in seen:
+                continue
+            seen.add(x)
+            st.extend(rev.get(x, ()))
+        return seen
+
     def reaches(self, root, targets):
         """Does `root` transitively reach a call to any callee name in `targets` (local or external)?"""
         for n in self.closure([root]):
